@@ -191,27 +191,51 @@ class Worker:
             env['NUMBA_NUM_THREADS'] = str(threads)
         if extra_env:
             env.update(extra_env)
+        self.env, self.prop = env, prop
         self.name = ('jit' if jit else 'nojit') + ('' if threads is None else '-t%d' % threads)
+        self.crashes = 0
+        self._start()
+
+    def _start(self):
         self.p = subprocess.Popen(
-            [PY, os.path.join(VERIF, 'harness', 'worker.py'), prop],
-            stdin=subprocess.PIPE, stdout=subprocess.PIPE, env=env, text=True,
+            [PY, os.path.join(VERIF, 'harness', 'worker.py'), self.prop],
+            stdin=subprocess.PIPE, stdout=subprocess.PIPE, env=self.env, text=True,
             cwd='/var/tmp',
         )
         hello = self.p.stdout.readline()
         if not hello.startswith('READY'):
             raise RuntimeError('worker failed to start: %r' % hello)
 
+    def _chunk(self, chunk):
+        """Evaluate a chunk; a crash of the interpreter (e.g. memory corruption in a
+        compiled kernel) is isolated by bisection and reported as error kind Crash."""
+        try:
+            self.p.stdin.write(json.dumps(chunk) + '\n')
+            self.p.stdin.flush()
+            line = self.p.stdout.readline()
+        except (BrokenPipeError, OSError):
+            line = ''
+        if line:
+            return json.loads(line)
+        rc = self.p.poll()
+        try:
+            self.p.kill()
+        except Exception:
+            pass
+        self.crashes += 1
+        if self.crashes > 40:
+            raise RuntimeError('worker %s keeps dying' % self.name)
+        self._start()
+        if len(chunk) == 1:
+            return [{'err': 'Crash', 'msg': 'interpreter died (exit %s) on this case' % rc}]
+        h = len(chunk) // 2
+        return self._chunk(chunk[:h]) + self._chunk(chunk[h:])
+
     def run(self, cases):
         out = []
         CH = 200
         for k in range(0, len(cases), CH):
-            chunk = cases[k:k + CH]
-            self.p.stdin.write(json.dumps(chunk) + '\n')
-            self.p.stdin.flush()
-            line = self.p.stdout.readline()
-            if not line:
-                raise RuntimeError('worker %s died' % self.name)
-            out += json.loads(line)
+            out += self._chunk(cases[k:k + CH])
         return out
 
     def close(self):
